@@ -302,6 +302,57 @@ func tablesFamily(ctx *Ctx) error {
 	if err != nil {
 		return err
 	}
+	// what a caller loads is the caller's: a program that loads the stock document, edits what it got (empties the maps,
+	// blanks the entries) and goes on coalescing must find the built-in tables as they were
+	{
+		probe := func() string {
+			var parts []string
+			for _, line := range []string{
+				"type=SYSCALL msg=audit(1.000:1): arch=c000003e syscall=2 success=yes exit=3 a0=1 items=1 ppid=1 pid=2 auid=0 uid=0 gid=0 euid=0 tty=pts0 ses=1 comm=\"cat\" exe=\"/bin/cat\" key=(null)",
+				"type=USER_LOGIN msg=audit(1.000:2): pid=1 uid=0 auid=0 ses=1 msg='op=login acct=\"root\" exe=\"/usr/sbin/sshd\" hostname=h addr=10.0.0.1 terminal=ssh res=success'",
+				"type=SYSCALL msg=audit(1.000:3): arch=c000003e syscall=59 success=yes exit=0 a0=1 items=2 ppid=1 pid=2 auid=0 uid=0 gid=0 euid=0 tty=pts0 ses=1 comm=\"ls\" exe=\"/bin/ls\" key=(null)",
+				"type=USER_AUTH msg=audit(1.000:4): pid=1 uid=0 auid=0 ses=1 msg='op=PAM:authentication acct=\"root\" exe=\"/usr/sbin/sshd\" hostname=h addr=10.0.0.1 terminal=ssh res=failed'"} {
+				m, err := auparse.ParseLogLine(line)
+				if err != nil {
+					parts = append(parts, "parse:"+err.Error())
+					continue
+				}
+				ev, err := aucoalesce.CoalesceMessages([]*auparse.AuditMessage{m})
+				if err != nil {
+					parts = append(parts, "err:"+err.Error())
+					continue
+				}
+				js, _ := json.Marshal(ev)
+				parts = append(parts, string(js))
+			}
+			return strings.Join(parts, "\n")
+		}
+		before := probe()
+		for round := 0; round < 2; round++ {
+			s1, r1, err := aucoalesce.LoadNormalizationConfig(append([]byte(nil), data...))
+			if err != nil {
+				break
+			}
+			for k, n := range s1 {
+				if n != nil {
+					*n = aucoalesce.Normalization{}
+				}
+				delete(s1, k)
+			}
+			s1["frobnicate"] = &aucoalesce.Normalization{}
+			for k, ns := range r1 {
+				for _, n := range ns {
+					if n != nil {
+						*n = aucoalesce.Normalization{}
+					}
+				}
+				delete(r1, k)
+			}
+		}
+		if after := probe(); after != before {
+			monitor("C20: after a caller loaded the stock normalizations document with LoadNormalizationConfig and edited the maps it was given, CoalesceMessages normalises the same records differently: the caller was handed the built-in tables", TCase{Table: "norms", Key: "LoadNormalizationConfig"}, after)
+		}
+	}
 	sysNorms, rtNorms, err := aucoalesce.LoadNormalizationConfig(data)
 	if err != nil {
 		monitor("C20: the embedded normalizations.yaml does not load: "+err.Error(), TCase{Table: "norms"}, "")
@@ -421,6 +472,9 @@ func c20RuleTables(ctx *Ctx, monitor func(string, TCase, string)) {
 	val := func(f string) string {
 		switch f {
 		case "arch":
+			if strconv.IntSize == 32 {
+				return "b32" // this program is a 32-bit one (the second pass): b64 names nothing here
+			}
 			return "b64"
 		case "dir", "path", "exe":
 			return "/x"
